@@ -2,9 +2,8 @@
 C04 — Delta update reconstructs the new file exactly, fetching only what is missing.
 Theorems about the model of the update procedure (`Update.lean`), built on the theorems about the callbacks (`C05`),
 for an ARBITRARY initial target (which is what makes C11 a corollary), ARBITRARY hash function and regex answers.
-PARTIAL: that an honest server's response makes every requested chunk valid (so that the loop ends with nothing missing,
-after fetching exactly the missing extents once) is NOT a theorem; it is checked on the implementation and on the model by
-the UPDATE runs.  What is proved is soundness: whatever the loop does, every chunk it leaves marked valid is present
+Completeness (that well-formed responses make every requested chunk valid, so that the loop ends with nothing missing) is in
+`C04Complete.lean` (`round_complete`, `loop_complete`, `update_complete`).  What is proved HERE is soundness: whatever the loop does, every chunk it leaves marked valid is present
 (hashes to its checksum at its extent), valid chunks are never modified, a run that ends without error has nothing
 missing, and a target all of whose chunks are present behind B's header IS B or exhibits an explicit hash collision.
 -/
